@@ -9,8 +9,8 @@ connection.py channel lookup).
    against HonestAccepted (RFC 4254 section 5), NothingPastEof,
    NoReplyUnsolicited, UnknownChannelIsError, DeadChannelIsError,
    WindowEnforced, ReplyIffWanted, NoDataAfterLocalClose, ErrorHasNoEffect,
-   ClosesCleanly (the peer's CLOSE afterwards ends the channel in order);
-   eight wrong variants of the rules that TLC must reject; the table is
+   DroppedDataCredited, ClosesCleanly (the peer's CLOSE afterwards ends the channel in order);
+   nine wrong variants of the rules that TLC must reject; the table is
    emitted row by row.
 2. specs/Channel/ChanGateLC.tla instantiates Lifecycle.tla next to the
    table: for every honest row that Lifecycle has a message for, Lifecycle's
@@ -44,11 +44,12 @@ SECOND_START = os.environ.get('X07_SECOND_START', 'as_coded')
 BASE = dict(DataAfterEof='FALSE', AdjustAfterEof='TRUE', UnknownChan='"error"',
             ReplyUnsolicited='FALSE', DropAfterClose='TRUE',
             ReplyWhileClosing='TRUE', CheckWindow='TRUE',
+            CreditWhileClosing='TRUE',
             SecondStart=f'"{SECOND_START}"')
 INVS = ['HonestAccepted', 'NothingPastEof', 'NoReplyUnsolicited',
         'UnknownChannelIsError', 'DeadChannelIsError', 'WindowEnforced',
         'ReplyIffWanted', 'NoDataAfterLocalClose', 'ErrorHasNoEffect',
-        'ClosesCleanly']
+        'ClosesCleanly', 'DroppedDataCredited']
 # wrong rules TLC must reject: (name, constants, invariant that catches it)
 SENS = [
     ('data_after_eof', dict(DataAfterEof='TRUE'), 'NothingPastEof'),
@@ -58,6 +59,8 @@ SENS = [
     ('error_after_close', dict(DropAfterClose='FALSE'), 'HonestAccepted'),
     ('no_reply_closing', dict(ReplyWhileClosing='FALSE'), 'ReplyIffWanted'),
     ('no_window', dict(CheckWindow='FALSE'), 'WindowEnforced'),
+    ('no_credit_closing', dict(CreditWhileClosing='FALSE'),
+     'DroppedDataCredited'),
     # the rule of the code itself (observation F10): a second exec is started
     ('second_start', dict(SecondStart='"as_coded"'), 'StartOnce'),
 ]
@@ -65,7 +68,8 @@ SENS = [
 BRANCHES = {'adj_flush', 'adj_idle', 'buffered', 'close_done', 'close_parked',
             'confirmed', 'delivered', 'eof_delivered', 'eof_parked',
             'open_failed', 'reply_fail', 'reply_ok', 'req_known',
-            'req_unknown', 'start', 'start_again', 'dropped_closed', 'empty',
+            'req_unknown', 'start', 'start_again', 'dropped_closed',
+            'dropped_credited', 'empty',
             'adj_not_open', 'close_not_open', 'closing', 'data_not_open',
             'decode', 'eof_not_open', 'ext_type', 'no_such_channel',
             'not_opening', 'opening', 'req_name', 'req_not_open', 'truncated',
@@ -221,6 +225,9 @@ def main(ctx):
               heap='2g' if quick else '6g', **LC)
     bg('lifecycle_wit', {}, ['Witness'], expect='Witness', **LC)
     bg('lifecycle_sens', dict(AdjustAfterEof='FALSE'),
+       ['AgreesWithLifecycle'], expect='AgreesWithLifecycle', **LC)
+    # pre-F32 rule (no credit while close_pending): Lifecycle disagrees
+    bg('lifecycle_nocredit', dict(CreditWhileClosing='FALSE'),
        ['AgreesWithLifecycle'], expect='AgreesWithLifecycle', **LC)
     for name, consts, inv in SENS:
         bg('s_' + name, consts, [inv], expect=inv)
